@@ -53,6 +53,7 @@ fn main() {
         "C02" => props::c02::run(&ctx),
         "C03" => props::c03::run(&ctx),
         "C04" => props::c04::run(&ctx),
+        "C05" => props::c05::run(&ctx),
         "C07" => props::c07::run(&ctx),
         "C08" => props::c08::run(&ctx),
         "C10" => props::c10::run(&ctx),
